@@ -60,6 +60,39 @@ def queue_api_entry_points(F, M):
     return out
 
 
+def roles_reached(F, roles, through=None):
+    """fn id -> set of queue-API roles called directly or through private (non-pub) hand-written helpers.
+    A refactoring that moves a queue call into a private helper keeps the caller's role set."""
+    through = through or (lambda bb: not bb.get('pub') and bb['id'] not in roles)
+    direct, callees = {}, {}
+    for b in F.bodies.values():
+        if not F.handwritten(b):
+            continue
+        ds, cs = set(), set()
+        for bl in b['blocks']:
+            t = bl['term']
+            if t['k'] == 'call' and t.get('fn'):
+                if t['fn'] in roles:
+                    ds.add(roles[t['fn']])
+                elif t['fn'] in F.bodies:
+                    cs.add(t['fn'])
+        direct[b['id']] = ds
+        callees[b['id']] = cs
+    out = {k: set(v) for k, v in direct.items()}
+    changed = True
+    while changed:
+        changed = False
+        for k, cs in callees.items():
+            for c in cs:
+                cb = F.bodies.get(c)
+                if cb is None or c not in out or not F.handwritten(cb) or not through(cb):
+                    continue
+                if not out[c] <= out[k]:
+                    out[k] |= out[c]
+                    changed = True
+    return out
+
+
 def site(sg, n):
     return sg.where(n)
 
@@ -186,6 +219,56 @@ def array_elems(S, t, depth=3):
             return array_elems(S, v, depth - 1)
     if t0[0] == 'ref' and 'promoted' in fmt(t0):
         return []        # promoted constant `&[]`
+    return None
+
+
+def array_alternatives(S, t):
+    """Element lists a slice operand can denote: one list, or one per alternative when the operand is selected
+    between a whole array and a constant prefix / suffix of it (`if c { &a[..1] } else { &a }`)."""
+    one = array_elems(S, t)
+    if one is not None:
+        return [one]
+    t0 = t
+    while t0[0] in ('cast', 'idcall', 'conv'):
+        t0 = t0[3] if t0[0] == 'cast' else t0[2]
+    if t0[0] == 'ref' and t0[1][1][0] == 'deref' and not t0[1][2]:
+        t0 = strip_ptr(t0[1][1][1])
+    if t0[0] == 'phi':
+        out = []
+        for a in t0[1]:
+            r = array_alternatives(S, a)
+            if r is None:
+                return None
+            out.extend(r)
+        return out
+    if t0[0] == 'ref' and t0[1][1][0] == 'local' and len(t0[1][2]) == 1 and t0[1][2][0][0] == 'idx':
+        rg = t0[1][2][0][1]
+        whole = array_elems(S, ('ref', ('loc', t0[1][1], ())))
+        if whole is None or rg[0] != 'agg':
+            return None
+        vals = [x[1] if x[0] == 'const' else None for x in rg[2]]
+        if any(v is None for v in vals):
+            return None
+        kind = rg[1].rsplit('::', 1)[-1]
+        if kind == 'RangeTo':
+            return [whole[:vals[0]]]
+        if kind == 'RangeFrom':
+            return [whole[vals[0]:]]
+        if kind == 'Range':
+            return [whole[vals[0]:vals[1]]]
+        return None
+    return None
+
+
+def value_type(sg, v):
+    """Type of a call result: the type of the local the call writes."""
+    if v is not None and v[0] == 'call' and isinstance(v[1], int):
+        n = sg.nodes[v[1]]
+        d = n.d.get('dest')
+        if d is not None and not d['p']:
+            return sg.ctxs[n.ctx].fn['locals'][d['l']]['ty']
+    if v is not None and v[0] == 'agg' and '::' in v[1]:
+        return v[1].rsplit('::', 1)[0]
     return None
 
 
